@@ -329,6 +329,48 @@ def projection_case(ctx, idx, rng):
                 ctx.close('heff.hermitian[zero-site]', np.linalg.norm(M - M.conj().T), 1e-10 * np.linalg.norm(M) + 1e-12 * scale_env, 'bond operator not Hermitian for a Hermitian MPO', detail)
 
 
+def soak_case(ctx, idx, rng):
+    """The repository's own test-suite and documentation notebooks with dense references attached to vdot / norm / operator_average /
+    operator_inner_product / operator_density_average (objects within dense reach)."""
+    from .. import soak
+    n = {'checked': 0, 'beyond-dense-reach': 0}
+    ts = lambda T: float(np.prod([max(np.linalg.norm(a), 1e-300) for a in T.A]))
+
+    def dense(o):
+        return refs.dense_operator(o.A) if isinstance(o, ptn.MPO) else refs.dense_state(o.A)
+
+    def small(*objs):
+        for o in objs:
+            L = len(o.A)
+            d = len(o.qd)
+            if (isinstance(o, ptn.MPO) and d ** (2 * L) > 4096 * 64) or (not isinstance(o, ptn.MPO) and d ** L > 16384) or L == 0:
+                return False
+        return True
+
+    def make(name, ref):
+        def around(orig, *a):
+            if not small(*a):
+                n['beyond-dense-reach'] += 1
+                return orig(*a)
+            ds = [dense(o) for o in a]
+            r = orig(*a)
+            n['checked'] += 1
+            sc = float(np.prod([ts(o) for o in a])) * (ts(a[0]) if name == 'operator_average' else 1.0)
+            ctx.close(f'soak.{name}', abs(complex(r) - complex(ref(ds))), 1e-10 * max(sc, 1e-300), f'{name} called from the test-suite / notebooks deviates from the dense value', {'function': name}, True)
+            return r
+        return around
+    att = [('pytenet.operation.vdot', make('vdot', lambda d: np.vdot(d[0], d[1]))),
+           ('pytenet.operation.norm', make('norm', lambda d: np.linalg.norm(d[0]))),
+           ('pytenet.operation.operator_average', make('operator_average', lambda d: np.vdot(d[0], d[1] @ d[0]))),
+           ('pytenet.operation.operator_inner_product', make('operator_inner_product', lambda d: np.vdot(d[0], d[1] @ d[2]))),
+           ('pytenet.operation.operator_density_average', make('operator_density_average', lambda d: np.trace(d[1] @ d[0])))]
+    ctx.case(('soak', 'repository-test-suite+notebooks'), sample={'functions_monitored': [a for a, _ in att]})
+    soak.run_suite(ctx, att)
+    soak.run_notebooks(ctx, att)
+    for k, v in n.items():
+        ctx.event('soak_calls_' + k, v)
+
+
 SPEC = {
     'id': 'C04',
     'rule': ('scalars: vdot (both orders, complex bra != ket with independent bond profiles), norm, operator_average, operator_inner_product, '
@@ -345,6 +387,7 @@ SPEC = {
         Workload('scalars', scalars_case, quick=500, thorough=64000),
         Workload('extreme-scales', extreme_scale_case, quick=300, thorough=30000),
         Workload('long-chain', long_chain_case, quick=40, thorough=3000),
+        Workload('suite-soak', soak_case, quick=0, thorough=1, shardable=False),
         Workload('steps', steps_case, quick=300, thorough=36000),
         Workload('projection', projection_case, quick=250, thorough=24000),
     ],
